@@ -5,7 +5,9 @@ CHECK = {
     'rule': ('Keys are boxed integers with 2-3 distinct key OBJECTS and value objects per key value (separate heap blocks), '
              'so "the stored key/value pointers stay untouched" is observed by address; a share of the entries (odd key values '
              'with their last key object in the closure alphabets, one offer in 3-4 in random histories) is inserted with a '
-             'NULL value pointer, which the model stores and every report (insert-existing, find, erase, clear callback) must show. '
+             'NULL value pointer, which the model stores and every report (insert-existing, find, erase, clear callback) must show; '
+             'the NULL pointer is itself one legal key (key object 0 of value 0: the comparison maps NULL to value 0 without '
+             'dereferencing it; every other argument must be a live key object), stored, found, erased and handed to clear like any other. '
              '(a) closure generator: every op of the alphabet {insert with/without iterator, find, erase by key with/without '
              'iterator, erase_iterator with an iterator taken from a find or from an insert (new or existing key), size, '
              'clear with callback, clear with NULL callback} x every key value x every key object is applied in every reachable '
